@@ -176,4 +176,9 @@ def ctz(value: int, size: int = 32) -> int:
     for i in range(size):
         if value & (1 << i):
             return i
-    return 0
+    return size
+
+
+def cto(value: int, size: int = 32) -> int:
+    """Count the number of trailing one bits in an integer of a given size."""
+    return ctz(~value & ((1 << size) - 1), size)
